@@ -69,7 +69,9 @@ def changing_cases(draw, tier):
     if len(cpts) == 1 and draw(st.booleans()):
         cp_arg = cpts[0]
     return {"fn": "changing", "n": n, "p": p, "changepoints": cp_arg, "means": m_arg, "variances": v_arg,
-            "exp_means": means, "exp_vars": variances, "seed": draw(st.integers(0, 2 ** 31 - 1))}
+            "exp_means": means, "exp_vars": variances, "seed": draw(st.integers(0, 2 ** 31 - 1)),
+            # positions computed with NumPy (list(np.cumsum(lengths)[:-1])) are numpy integers, not Python ints
+            "np_positions": draw(st.integers(0, 3)) == 0}
 
 
 @st.composite
@@ -87,7 +89,7 @@ def anomalous_cases(draw, tier):
     a_arg = an
     return {"fn": "anomalous", "n": n, "p": p, "anomalies": a_arg, "single_tuple": len(an) == 1 and draw(st.booleans()),
             "means": m_arg, "variances": v_arg, "exp_means": means, "exp_vars": variances,
-            "seed": draw(st.integers(0, 2 ** 31 - 1))}
+            "seed": draw(st.integers(0, 2 ** 31 - 1)), "np_positions": draw(st.integers(0, 3)) == 0}
 
 
 @st.composite
@@ -96,7 +98,7 @@ def alternating_cases(draw, tier):
             "p": draw(st.integers(1, 5)), "mean": draw(st.one_of(st.sampled_from([0.0, 10.0, -3.0]), st.floats(-20, 20))),
             "variance": draw(st.one_of(st.sampled_from([1.0, 4.0, 0.25, 0.0]), st.floats(0.01, 20))),
             "affected_proportion": draw(st.sampled_from([1.0, 0.5, 0.0, 0.2, 0.34, 0.75])),
-            "seed": draw(st.integers(0, 2 ** 31 - 1))}
+            "seed": draw(st.integers(0, 2 ** 31 - 1)), "np_positions": draw(st.integers(0, 3)) == 0}
 
 
 def as_arg(x):
@@ -124,6 +126,8 @@ def check_changing(case):
     from skchange.datasets import generate_changing_data as g
 
     n, p = case["n"], case["p"]
+    if case.get("np_positions") and isinstance(case["changepoints"], list):
+        case = dict(case, changepoints=[np.int64(c) for c in case["changepoints"]])
     args = dict(n=n, changepoints=case["changepoints"], means=as_arg(case["means"]), variances=as_arg(case["variances"]),
                 random_state=case["seed"])
     with sut("generate_changing_data"):
@@ -155,7 +159,7 @@ def check_anomalous(case):
     from skchange.datasets import generate_anomalous_data as g
 
     n, p = case["n"], case["p"]
-    an = [tuple(x) for x in case["anomalies"]]
+    an = [tuple(np.int64(v) for v in x) if case.get("np_positions") else tuple(x) for x in case["anomalies"]]
     a_arg = an[0] if case["single_tuple"] else an
     args = dict(n=n, anomalies=a_arg, means=as_arg(case["means"]), variances=as_arg(case["variances"]),
                 random_state=case["seed"])
@@ -182,7 +186,7 @@ def check_alternating(case):
 
     k, L, p = case["n_segments"], case["segment_length"], case["p"]
     n = k * L
-    args = dict(n_segments=k, segment_length=L, p=p, mean=case["mean"], variance=case["variance"],
+    args = dict(n_segments=k, segment_length=np.int64(L) if case.get("np_positions") else L, p=p, mean=case["mean"], variance=case["variance"],
                 affected_proportion=case["affected_proportion"], random_state=case["seed"])
     with sut("generate_alternating_data"):
         first = g(**args)
@@ -213,7 +217,8 @@ def outlier_cases(draw, tier):
     n = draw(st.integers(1, 60))
     p = draw(st.integers(1, 4))
     return {"fn": "outliers", "n": n, "p": p, "k": draw(st.integers(1, n)),
-            "frame": draw(st.sampled_from(["ndarray", "appended_column", "dict_of_columns", "concat", "generator"])),
+            # stacked_rows: two recordings stacked with pd.concat without ignore_index - the row labels repeat
+            "frame": draw(st.sampled_from(["ndarray", "appended_column", "dict_of_columns", "concat", "generator", "stacked_rows"])),
             "size": draw(st.one_of(st.sampled_from([10.0, -5.0, 0.5]), st.floats(-50, 50).filter(lambda v: abs(v) > 1e-3))),
             "X": draw(D.exact_matrix(n, p))}
 
@@ -237,11 +242,19 @@ def check_outliers(case):
         from skchange.datasets import generate_changing_data
         df = generate_changing_data(n, [], [np.zeros(p)], [np.ones(p)], 7)
         X = df.to_numpy().copy()
+    elif how == "stacked_rows" and n >= 2:
+        df = pd.concat([pd.DataFrame(X[: n // 2].copy(), columns=cols), pd.DataFrame(X[n // 2:].copy(), columns=cols)])
     else:
         df = pd.DataFrame(X.copy(), columns=cols)
+    labels_before = list(df.index)
     with sut("add_linspace_outliers"):
         out = add_linspace_outliers(df, k, case["size"])
-    frame_checks(out, n, p, "add_linspace_outliers")
+    if how == "stacked_rows" and n >= 2:
+        if not isinstance(out, pd.DataFrame) or out.shape != (n, p) or list(out.index) != labels_before:
+            raise Violation("add_linspace_outliers: output is not the n x p frame with the row labels it was given",
+                            shape=list(getattr(out, "shape", [])), n=n, p=p)
+    else:
+        frame_checks(out, n, p, "add_linspace_outliers")
     diff = out.to_numpy() - X
     changed = np.flatnonzero(np.any(diff != 0, axis=1))
     if len(changed) != k:
